@@ -17,8 +17,10 @@ Export == (Quiet /\ Len(hist) = MaxHist /\ hist[Len(hist)].a \in {"cmd", "query"
 '''
 
 
-def write_mc(workdir, modname, prog, j=1, max_hist=4, max_cmds=3, unlocked_bug=False, body='', cfg_tail=''):
-    consts = programs.prog_constants(prog, j=j, max_hist=max_hist, max_cmds=max_cmds, unlocked_bug=unlocked_bug)
+def write_mc(workdir, modname, prog, j=1, max_hist=4, max_cmds=3, unlocked_bug=False, body='', cfg_tail='',
+             selfdep_panics=False):
+    consts = programs.prog_constants(prog, j=j, max_hist=max_hist, max_cmds=max_cmds, unlocked_bug=unlocked_bug,
+                                     selfdep_panics=selfdep_panics)
     mod, cfg = programs.mc_module(modname, 'RedoSysProps', consts, body=body)
     mod = mod.replace('EXTENDS RedoSysProps, TLCExt', 'EXTENDS RedoSysProps, TLCExt, Json')
     open(os.path.join(workdir, modname + '.tla'), 'w').write(mod)
@@ -34,7 +36,7 @@ def parse_printed(res):
 
 
 def gen_histories(prog, workdir, j=1, max_hist=4, max_cmds=3, invariants=(), workers=8, timeout=900,
-                  unlocked_bug=False, properties=()):
+                  unlocked_bug=False, properties=(), dump_trace=None):
     """Exhaustive TLC run of the program's history space: checks `invariants` and exports the
     maximal histories.  Returns (TlcResult, histories)."""
     modname = 'MC_' + prog['name'].replace('-', '_')
@@ -42,7 +44,8 @@ def gen_histories(prog, workdir, j=1, max_hist=4, max_cmds=3, invariants=(), wor
         + ''.join('PROPERTY %s\n' % p for p in properties)
     write_mc(workdir, modname, prog, j=j, max_hist=max_hist, max_cmds=max_cmds, unlocked_bug=unlocked_bug,
              body=EXPORT_BODY, cfg_tail=tail)
-    res = common.run_tlc(modname, modname + '.cfg', workdir, workers=workers, timeout=timeout)
+    extra = ['-dumpTrace', 'json', dump_trace] if dump_trace else []
+    res = common.run_tlc(modname, modname + '.cfg', workdir, workers=workers, timeout=timeout, extra=extra)
     return res, parse_printed(res)
 
 
@@ -64,11 +67,11 @@ def group_histories(hists):
     return out
 
 
-def interesting(inp):
-    """non-trivial history input: at least two commands, one of them a build"""
+def interesting(inp, min_cmds=2):
+    """non-trivial history input: at least min_cmds commands, one of them a build"""
     cmds = [s for s in inp if s[0] in ('cmd', 'query')]
     builds = [s for s in inp if s[0] == 'cmd']
-    return len(builds) >= 1 and len(cmds) >= 2
+    return len(builds) >= 1 and len(cmds) >= min_cmds
 
 
 def replay_all(prog, groups, bindir, root, nworkers=8, log_mode=None, keep_failed=True, cmd_timeout=60, cats=None,
